@@ -39,6 +39,14 @@ func (f *fileEdits) add(off, del int, ins string) {
 	f.edits = append(f.edits, edit{off, del, ins})
 }
 
+// addTail appends a declaration to the end of the file once (used to keep
+// imports referenced after their only use was rewritten away).
+func (f *fileEdits) addTail(decl string) {
+	if !strings.Contains(f.tail, decl) {
+		f.tail += decl
+	}
+}
+
 func fatalf(format string, a ...interface{}) {
 	fmt.Fprintf(os.Stderr, "simrewrite: "+format+"\n", a...)
 	os.Exit(2)
@@ -279,21 +287,31 @@ func rewritePkg(p *packages.Package) {
 						switch x.Sel.Name {
 						case "Now":
 							fe.need = true
-							fe.tail = "\nvar _ time.Duration\n"
+							fe.addTail("\nvar _ time.Duration\n")
 							fe.add(off(x.Pos()), off(x.End())-off(x.Pos()), "__simrt.Now")
 							stats["time_now"]++
 						case "Since":
 							fe.need = true
-							fe.tail = "\nvar _ time.Duration\n"
+							fe.addTail("\nvar _ time.Duration\n")
 							fe.add(off(x.Pos()), off(x.End())-off(x.Pos()), "__simrt.Since")
-						case "Sleep", "After", "AfterFunc", "NewTimer", "NewTicker", "Tick", "Until":
+						case "Sleep":
+							// a sleep is a scheduling point at which simulated time passes
+							fe.need = true
+							fe.addTail("\nvar _ time.Duration\n")
+							fe.add(off(x.Pos()), off(x.End())-off(x.Pos()), "__simrt.Sleep")
+						case "After", "AfterFunc", "NewTimer", "NewTicker", "Tick", "Until":
 							trap(x.Pos(), "time."+x.Sel.Name)
 						}
 					}
 					if isPkg(x.X, "math/rand") || isPkg(x.X, "crypto/rand") || isPkg(x.X, "math/rand/v2") {
 						trap(x.Pos(), "randomness ("+x.Sel.Name+")")
 					}
-					if isPkg(x.X, "runtime") && (x.Sel.Name == "Gosched" || x.Sel.Name == "Goexit") {
+					if isPkg(x.X, "runtime") && x.Sel.Name == "Gosched" {
+						fe.need = true
+						fe.addTail("\nvar _ = runtime.NumCPU\n")
+						fe.add(off(x.Pos()), off(x.End())-off(x.Pos()), "__simrt.Yield")
+					}
+					if isPkg(x.X, "runtime") && x.Sel.Name == "Goexit" {
 						trap(x.Pos(), "runtime."+x.Sel.Name)
 					}
 					if isPkg(x.X, "os") && (x.Sel.Name == "Exit") {
